@@ -814,9 +814,10 @@ int main(int argc, char *argv[])
         else
       if (util_context.memory.low_address != 0xffffffff)
       {
+        // disasm(start, end) takes addresses in the CPU's units.
         util_context.disasm(
-          util_context.memory.low_address,
-          util_context.memory.high_address);
+          util_context.memory.low_address / util_context.bytes_per_address,
+          util_context.memory.high_address / util_context.bytes_per_address);
       }
     }
       else
